@@ -1,6 +1,8 @@
 import DriverLib.Ops
 import Gonnx.Graph.Validate
 import Gonnx.Graph.Decode
+import Gonnx.Spec.Run
+import DriverLib.Dispatch
 /-
 Graph-level cases of the driver.
 -/
@@ -47,5 +49,55 @@ def runDecode (j : Json) : Json :=
       ("shape", Json.arr (d.shape.map (fun (n : Nat) => toJson n)).toArray),
       ("bits", Json.arr (d.bits.map (fun (n : Nat) => toJson n)).toArray)]
   | .error e => errJson e
+
+end Drv
+
+namespace Drv
+open Lean Gonnx
+
+/-- operator semantics of node `i` for the driver: the operator-level model -/
+def nodeSem (nodes : Array Json) (i : Nat) (ins : List (Option DT)) : Res (List (Option DT)) :=
+  let n := nodes.getD i Json.null
+  let op := getStr n "op"
+  let nOut := (getArr n "outs").size
+  let a := runOp op (getObj n "attrs") ins nOut
+  match a.model.status with
+  | "ok" => .ok a.model.outs
+  | "error" => .error (a.model.err.getD .other)
+  | "panic" => .error .panic
+  | _ => .error .unmodelled
+
+def strList (a : Array Json) : List String := a.toList.map fun v => match v with | .str s => s | _ => ""
+
+def parseGraph (g : Json) : Option (Graph DT) :=
+  let nodes := (getArr g "nodes").toList.map fun n => ({ ins := strList (getArr n "ins"), outs := strList (getArr n "outs") } : GNode)
+  let decls := (getArr g "inputs").toList.map parseInputDecl
+  let inits := (getArr g "inits").toList.mapM fun i => match parseTensor (getObj i "t") with
+    | some (some d) => some (getStr i "name", d)
+    | _ => none
+  inits.map fun is => { nodes, decls, outputs := strList (getArr g "outputs"), inits := is }
+
+def dtShape (d : DT) : List Nat := match d.fl with | some f => f.shape | none => d.t.shape
+
+def runGraph (j : Json) : Json :=
+  let gj := getObj j "graph"
+  let supplied := (getArr (getObj j "p") "inputs").toList.mapM fun s => match parseTensor (getObj s "t") with
+    | some (some d) => some (getStr s "name", d)
+    | _ => none
+  match parseGraph gj, supplied with
+  | some g, some ins =>
+    let sem := nodeSem (getArr gj "nodes")
+    let outJson (r : Res (List (String × DT))) : Json := match r with
+      | .ok outs => Json.mkObj [("status", "ok"), ("outs", Json.arr (outs.map fun (_, d) => tensorJson d).toArray)]
+      | .error e => errJson e
+    let model := run dtShape sem g ins
+    -- the demand-driven value of every declared output
+    let spec : Res (List (String × DT)) := g.outputs.mapM fun o =>
+      match Spec.value sem g ins (g.nodes.length + 1) o with
+      | .ok (some v) => .ok (o, v)
+      | .ok none => .error .model
+      | .error e => .error e
+    Json.mkObj [("model", outJson model), ("spec", outJson spec)]
+  | _, _ => Json.mkObj [("model", Json.mkObj [("status", "inexact")])]
 
 end Drv
